@@ -116,11 +116,14 @@ def stepU (ws : List String) : String :=
     match optNat r, parsePeers rest with
     | some r, some ps => tagNats "ok" ((replicateCandidates (sortByDist ps) r).map (·.1))
     | _, _ => "bad-op"
-  | "proofresp" :: d :: rest =>
-    -- Node::respond_x_closest_record_proof, difficulty ≠ 1: the held chunks nearest the key
-    match d.toNat?, parsePeers rest with
-    | some d, some ps => tagNats "ok" ((respondClosest ps d).map (·.1))
-    | _, _ => "bad-op"
+  | "proofresp" :: d :: k :: rest =>
+    -- Node::respond_x_closest_record_proof: difficulty 1 = the key itself (found or not), else the held chunks nearest the key
+    match d.toNat?, optNat k, parsePeers rest with
+    | some d, some k, some ps =>
+      match respondProof ps k d with
+      | .single found => if found then "one found" else "one missing"
+      | .nearest l => tagNats "ok" (l.map (·.1))
+    | _, _, _ => "bad-op"
   | "derive-range" :: nf :: fl :: rest =>
     -- the interval arm of SwarmDriver::run: the responsible range from the routing table (distances to the node itself)
     match nf.toNat?, fl.toNat?, parsePeers rest with
